@@ -130,7 +130,11 @@ func c11Scenario(s *sc) {
 		}
 	}
 	time.Sleep(time.Until(shortEnd.Add(300 * time.Millisecond)))
-	in.Sink.Settle(time.Second) // the client side writes its log entry after the answer
+	// the client side writes its log entry after the answer
+	if !in.ClientSettled("", time.Second) {
+		s.inconclusive("the application had not returned from its deliveries 8s after the receivers answered them")
+		return
+	}
 	before, err := in.GetSilences()
 	s.must(err, "GET silences")
 	nBefore := len(in.Sink.Reqs())
